@@ -17,6 +17,7 @@ import Dassh.Model.FlowSplit
 import Dassh.Model.AcceptRegions
 import Dassh.Model.PowerRows
 import Dassh.Model.AcceptFuel
+import Dassh.Model.Assignment
 
 open Dassh.Model
 
@@ -201,6 +202,14 @@ def handle (line : String) : String :=
           | _ => "bad-op")
        | _, _, _, _, _ => "bad-op")
     | _ => "bad-op"
+  | ["assign", r, p0, p1] =>
+    -- assign ring first last   (Assignment.lineIndices; signed integers)
+    (match r.toInt?, p0.toInt?, p1.toInt? with
+     | some r, some p0, some p1 =>
+       (match Assignment.lineIndices r p0 p1 with
+        | some idx => "ok " ++ showNats idx
+        | none => "err")
+     | _, _, _ => "bad-op")
   | "clamp" :: rest =>
     -- clamp m | lims...   (Orifice.clampGroup)
     let (hd, ls) := splitBar rest
